@@ -614,6 +614,238 @@ def run(ctx):
                     tie_ok = False
             verdict(ctx, key, desc, tie_ok, out, [istat, ival], fail, "history: model (current parameters) and implementation differ")
 
+
+    # =================================================================== 2c. conditional distributions: logd with conditioning
+    # variables (re-used mutable objects changed in place, parent re-assigned), multi-step conditioning of callables
+    LOCLIKE = {"normal": [0], "laplace": [0], "smoothedlaplace": [0], "cauchy": [0], "gamma": [], "invgamma": [], "beta": [], "uniform": []}
+    cjobs, clines = [], []
+
+    def cline(fam, n, cur, x):
+        modes = ("".join("s" if len(v) == 1 else "a" for v in cur if v) + "---")[:3]
+        pv = [qv(v) if v else "-" for v in (cur + [[], [], []])[:3]]
+        return f"iid {fam} {n} {modes} {qv(x)} {pv[0]} {pv[1]} {pv[2]}"
+
+    for fam in HFAMS:
+        for rep in range(3 * S):
+            n = rng.choice([1, 2, 3])
+            _, p = gen_params(fam, n, "in")
+            for k in range(len(p)):
+                if p[k] and len(p[k]) == 1 and not (fam == "laplace" and k == 1) and not (fam == "smoothedlaplace" and k == 2):
+                    p[k] = [p[k][0]] * n
+            cands = [k for k in range(len(PNAMES[fam])) if len(p[k]) == n and not (fam == "invgamma" and k == 1)]
+            if fam == "uniform":
+                cands = [1]
+            k = rng.choice(cands)
+            how = rng.choice(["none", "callable"])
+            script = []     # (action, payload)
+            cur = [list(v) for v in p]
+            def mutate(vals, fam=fam, k=k):
+                v = list(vals)
+                j = rng.randrange(len(v))
+                if k in LOCLIKE[fam]:
+                    v[j] = v[j] + rng.choice([-1.5, 0.75, 2.0])
+                elif fam == "uniform":
+                    v[j] = v[j] + rng.choice([0.5, 1.0, 2.0])
+                else:
+                    v[j] = v[j] * rng.choice([2.0, 4.0, 0.5]) if v[j] * 0.5 >= 0.25 else v[j] * 2.0
+                return v
+            script.append(("call-kw", None))
+            for _ in range(rng.choice([2, 3])):
+                a = rng.choice(["inplace", "inplace", "inplace-scale", "parent", "fresh"])
+                if a == "inplace":
+                    cur[k] = mutate(cur[k]); script.append(("inplace", list(cur[k])))
+                elif a == "inplace-scale" and k not in LOCLIKE[fam] and fam != "uniform":
+                    cur[k] = [t_ * 2.0 for t_ in cur[k]]; script.append(("inplace-scale", 2.0))
+                elif a == "parent":
+                    others = [j for j in range(len(PNAMES[fam])) if j != k and not (fam == "invgamma" and j == 1) and fam != "uniform"]
+                    if others:
+                        j = rng.choice(others)
+                        _, fresh = gen_params(fam, n, "in")
+                        cur[j] = list(fresh[j]) if len(fresh[j]) == len(cur[j]) else [fresh[j][0]] * len(cur[j])
+                        script.append(("parent", (PNAMES[fam][j], list(cur[j]))))
+                else:
+                    cur[k] = mutate(cur[k]); script.append(("fresh", list(cur[k])))
+                x = point_for(fam, cur, n)
+                script.append((rng.choice(["call-kw", "call-pos"]), None))
+            # replay the script to produce one model line per call
+            cur2 = [list(v) for v in p]; xs = []
+            for (a, payload) in script:
+                if a in ("inplace", "fresh"):
+                    cur2[k] = list(payload)
+                elif a == "inplace-scale":
+                    cur2[k] = [t_ * payload for t_ in cur2[k]]
+                elif a == "parent":
+                    cur2[PNAMES[fam].index(payload[0])] = list(payload[1])
+                else:
+                    x = point_for(fam, cur2, n); xs.append((x, [list(v) for v in cur2])); clines.append(cline(fam, n, cur2, x))
+            cjobs.append((fam, n, p, k, how, script, xs))
+    couts2 = iter(ctx.lean.drive(clines))
+    for fam, n, p, k, how, script, xs in cjobs:
+        names = PNAMES[fam]
+        obj = lambda v: float(v[0]) if len(v) == 1 else np.array(v, dtype=float)
+        kw = dict(zip(names, [obj(v) for v in p if v]))
+        cname = names[k] if how == "none" else "c_"
+        kw[names[k]] = None if how == "none" else (lambda c_: c_)
+        try:
+            with quiet():
+                dist = CLS[fam](**kw, geometry=n, name="x")
+        except Exception as e:  # noqa
+            ctx.note(f"conditional {fam} ({how}) not constructible: {type(e).__name__}")
+            for _ in xs:
+                next(couts2)
+            continue
+        arr = np.array(p[k], dtype=float)       # THE mutable conditioning object, re-used across calls
+        log, ci = [], 0
+        for (a, payload) in script:
+            if a == "inplace":
+                arr[:] = np.array(payload); log.append("in-place assignment"); continue
+            if a == "inplace-scale":
+                arr *= payload; log.append("in-place *="); continue
+            if a == "fresh":
+                arr = np.array(payload, dtype=float); log.append("fresh object"); continue
+            if a == "parent":
+                with quiet():
+                    setattr(dist, payload[0], obj(payload[1]))
+                log.append(f"parent.{payload[0]} re-assigned"); continue
+            x, cur = xs[ci]; ci += 1
+            out = next(couts2)
+            xa = np.array(x, dtype=float)
+            log.append(a)
+            desc = {"family": fam, "dim": n, "conditional": f"{names[k]}={'None' if how == 'none' else 'lambda c_: c_'}", "script": list(log), "current": cur, "x": x}
+            ctx.case("conditional-logd", desc)
+            key = f"{CLS[fam].__name__}:conditional-logd:{how}"
+            if a == "call-kw":
+                istat, ival = call(lambda: dist.logd(**{cname: arr, "x": xa}))
+            else:
+                args = []
+                for cv in dist.get_conditioning_variables():
+                    args.append(arr)
+                istat, ival = call(lambda: dist.logd(*args, xa))
+            mstat, mt = model_parse(out)
+            mval = dec(mt[1]) if mstat == "formula" else None
+            tie_ok = agree(mstat, mval, istat, ival)
+            ref = reference(fam, x, cur, n)
+            ref = ref[0] if isinstance(ref, list) else ref
+            fail = None
+            if istat != "value" or (ref is not None and not close(ref, ival, ORTOL)):
+                fail = (ref, [istat, ival], "logd of a conditional distribution is not the documented log-density for the CURRENT values of the conditioning variables / parameters")
+            verdict(ctx, key, desc, tie_ok, out, [istat, ival], fail, "conditional logd: model (current values) and implementation differ")
+
+    # ---- the same for Gaussian (cached factorisation) and GMRF: the conditioning array is updated in place between calls
+    for rep in range(4 * S):
+        n = rng.choice([2, 3, 4])
+        form = rng.choice(["cov", "prec", "sqrtcov", "sqrtprec"])
+        arr = np.array([dy(rng, 0.5, 3) for _ in range(n)]); mu = np.array([dy(rng, -1, 1) for _ in range(n)])
+        with quiet():
+            g = D.Gaussian(mu.copy(), **{form: (lambda s_: s_)}, geometry=n, name="x")
+        log = []
+        for step in range(3):
+            if step == 1:
+                arr[rng.randrange(n)] *= 4.0; log.append("in-place entry *= 4")
+            elif step == 2:
+                arr *= 0.5; log.append("in-place *= 0.5")
+            x = mu + np.array([dy(rng, -2, 2) for _ in range(n)])
+            C = np.diag({"cov": arr, "prec": 1 / arr, "sqrtcov": arr ** 2, "sqrtprec": 1 / arr ** 2}[form])
+            ref = float(sps.multivariate_normal(mu, C).logpdf(x))
+            st, v = call(lambda: g.logd(s_=arr, x=x))
+            desc = {"form": form, "dim": n, "script": ["logd"] + list(log), "values": arr.tolist(), "x": x.tolist()}
+            ctx.case("conditional-logd", desc)
+            if st != "value" or not close(ref, v, ORTOL):
+                ctx.disagree("Gaussian:conditional-logd:callable:model-mismatch", desc, ref, [st, v])
+                ctx.fail("Gaussian:conditional-logd:callable:model-mismatch", desc, ref, [st, v],
+                         "logd of a conditional Gaussian is not the density for the CURRENT contents of the conditioning array")
+    for rep in range(3 * S):
+        n = rng.choice([3, 4, 5]); bc = "zero"
+        arr = np.array([rng.choice([0.5, 1.0, 2.0])]); mu = np.array([dy(rng, -1, 1) for _ in range(n)])
+        with quiet():
+            g = D.GMRF(mu.copy(), prec=lambda d_: d_, bc_type=bc, geometry=n, name="x")
+            P = _dense(g._prec_op.get_matrix())
+        for step in range(3):
+            if step > 0:
+                arr[0] = arr[0] * rng.choice([4.0, 0.25, 8.0])
+            x = mu + np.array([dy(rng, -2, 2) for _ in range(n)])
+            ref = float(sps.multivariate_normal(mu, np.linalg.inv(arr[0] * P)).logpdf(x))
+            st, v = call(lambda: g.logd(d_=arr, x=x))
+            desc = {"family": "gmrf", "dim": n, "step": step, "prec": float(arr[0]), "x": x.tolist()}
+            ctx.case("conditional-logd", desc)
+            if st != "value" or not close(ref, v, 1e-7):
+                ctx.disagree("GMRF:conditional-logd:callable:model-mismatch", desc, ref, [st, v])
+                ctx.fail("GMRF:conditional-logd:callable:model-mismatch", desc, ref, [st, v],
+                         "logd of a conditional GMRF is not the density for the CURRENT contents of the conditioning array")
+
+    # ---- multi-step conditioning of callable parameters with several arguments
+    mjobs, mlines = [], []
+    for fam in ("normal", "cauchy", "gamma", "beta", "laplace", "smoothedlaplace", "invgamma", "uniform"):
+        for variant in ("both-callable-same-args", "first-callable-second-constant", "different-arg-names", "swapped-arg-order"):
+            n = rng.choice([1, 2, 3])
+            _, p = gen_params(fam, n, "in")
+            for j in range(len(p)):
+                if p[j] and len(p[j]) == 1 and not (fam == "laplace" and j == 1) and not (fam == "smoothedlaplace" and j == 2):
+                    p[j] = [p[j][0]] * n
+            av, bv, cv = rng.choice([0.5, 1.0, 2.0]), rng.choice([1.0, 2.0, 4.0]), rng.choice([0.5, 2.0])
+            loc0 = 0 in LOCLIKE[fam]
+            # parameter 0 and 1 as functions of (a, b) / (c); values stay valid: positive parameters are multiplied by
+            # positive factors, location-like ones shifted
+            if fam == "uniform":
+                f0 = (lambda base: (lambda a, b: base - a * b))(np.array(p[0]))
+                f1 = (lambda base: (lambda a, b: base + a * b))(np.array(p[1]))
+                f1c = (lambda base: (lambda c: base + c))(np.array(p[1]))
+                v0 = (np.array(p[0]) - av * bv).tolist(); v1ab = (np.array(p[1]) + av * bv).tolist(); v1c = (np.array(p[1]) + cv).tolist()
+            else:
+                f0 = (lambda base: (lambda a, b: base + a - b))(np.array(p[0])) if loc0 else (lambda base: (lambda a, b: base * a * b))(np.array(p[0]))
+                v0 = (np.array(p[0]) + av - bv).tolist() if loc0 else (np.array(p[0]) * av * bv).tolist()
+                base1 = np.array(p[1]) if len(p[1]) > 1 else float(p[1][0])
+                f1 = (lambda base: (lambda a, b: base * a * b))(base1)
+                f1c = (lambda base: (lambda c: base * c))(base1)
+                v1ab = (np.array(p[1]) * av * bv).tolist(); v1c = (np.array(p[1]) * cv).tolist()
+            if variant == "both-callable-same-args":
+                kwf = {0: f0, 1: f1}; cur = [v0, v1ab] + p[2:]; cvals = {"a": av, "b": bv}
+            elif variant == "first-callable-second-constant":
+                kwf = {0: f0}; cur = [v0, list(p[1])] + p[2:]; cvals = {"a": av, "b": bv}
+            elif variant == "different-arg-names":
+                kwf = {0: f0, 1: f1c}; cur = [v0, v1c] + p[2:]; cvals = {"a": av, "b": bv, "c": cv}
+            else:
+                f1s = (lambda g: (lambda b, a: g(a, b)))(f1)
+                kwf = {0: f0, 1: f1s}; cur = [v0, v1ab] + p[2:]; cvals = {"a": av, "b": bv}
+            x = point_for(fam, cur, n)
+            mlines.append(cline(fam, n, cur, x))
+            mjobs.append((fam, n, variant, p, kwf, cur, cvals, x))
+    mouts = iter(ctx.lean.drive(mlines))
+    import itertools
+    for fam, n, variant, p, kwf, cur, cvals, x in mjobs:
+        out = next(mouts)
+        names = PNAMES[fam]
+        obj = lambda v: float(v[0]) if len(v) == 1 else np.array(v, dtype=float)
+        kw = dict(zip(names, [obj(v) for v in p if v]))
+        for j, f in kwf.items():
+            kw[names[j]] = f
+        xa = np.array(x, dtype=float)
+        mstat, mt = model_parse(out)
+        mval = dec(mt[1]) if mstat == "formula" else None
+        ref = reference(fam, x, cur, n)
+        ref = ref[0] if isinstance(ref, list) else ref
+        orders = list(itertools.permutations(cvals.keys()))[:4]
+        routes = [("one-step", None)] + [("steps:" + ">".join(o), o) for o in orders] + [("logd-kwargs", "logd")]
+        for label, route in routes:
+            desc = {"family": fam, "dim": n, "variant": variant, "route": label, "cond_values": cvals, "parameters_demanded": cur, "x": x}
+            ctx.case("multi-step-conditioning", desc)
+            key = f"{CLS[fam].__name__}:conditioning:{variant}:" + ("multi-step" if route not in (None, "logd") else label)
+            def run_route(route=route):
+                d = CLS[fam](**kw, geometry=n, name="x")
+                if route is None:
+                    return d(**cvals).logpdf(xa)
+                if route == "logd":
+                    return d.logd(**cvals, x=xa)
+                for nm in route:
+                    d = d(**{nm: cvals[nm]})
+                return d.logpdf(xa)
+            istat, ival = call(run_route)
+            tie_ok = agree(mstat, mval, istat, ival)
+            fail = None
+            if istat != "value" or (ref is not None and not close(ref, ival, ORTOL)):
+                fail = (ref, [istat, ival], "conditioning a callable parameter step by step does not give the documented density of the parameters the user's functions return")
+            verdict(ctx, key, desc, tie_ok, out, [istat, ival], fail, "multi-step conditioning: model and implementation differ")
+
     # =================================================================== 3. Gaussian parameterisations
     gauss_section(ctx, D, G, rng, nrng, S, thorough, bump, fam_hist)
 
@@ -625,6 +857,8 @@ def run(ctx):
 
     # =================================================================== 5b. covariance / cdf of non-diagonal Gaussians, re-assignment histories
     gauss_cov_cdf_section(ctx, D, G, rng, S)
+    gauss_sparse_cov_cdf_section(ctx, D, rng, S)
+    gmrf_threshold_section(ctx, D, thorough)
     lognormal_history_section(ctx, D, rng, S)
     mrf_history_section(ctx, D, G, rng, S)
     gauss_scale_section(ctx, D, rng, S)
@@ -706,8 +940,8 @@ def gauss_section(ctx, D, G, rng, nrng, S, thorough, bump, hist):
         for form in forms:
             kinds = ["scalar", "vector", "dense"] if not thorough else ["scalar", "vector", "diag", "dense", "dense-nonsym", "sparse-diag"]
             for kind in kinds:
-                if kind == "dense" and not thorough and (n, form) not in [(74, "cov"), (75, "cov"), (76, "cov"), (77, "prec"), (80, "cov"), (76, "prec"),
-                                                                             (75, "sqrtcov"), (76, "sqrtcov"), (75, "sqrtprec"), (76, "sqrtprec"), (80, "sqrtprec")]:
+                if kind == "dense" and not thorough and (n, form) not in [(75, "cov"), (76, "cov"), (77, "prec"), (76, "prec"),
+                                                                             (76, "sqrtcov"), (75, "sqrtprec"), (80, "sqrtprec")]:
                     continue
                 cases.append((form, kind, n))
     # malformed stream
@@ -1195,6 +1429,89 @@ def gauss_cov_cdf_section(ctx, D, G, rng, S):
                 verdict(ctx, key, desc, not mism, o2[:120], mism, fail, "Gaussian covariance: model and implementation differ: " + "; ".join(mism))
     finally:
         np.random.set_state(st)
+
+
+def gauss_sparse_cov_cdf_section(ctx, D, rng, S):
+    """compute_cov() and cdf of Gaussians whose matrix is a scipy.sparse NON-diagonal matrix (tridiagonal cov / prec,
+    bidiagonal sqrtcov / sqrtprec as in the class docstring), csr / csc / dia formats, dims 2..5."""
+    jobs, lines = [], []
+    for form in ("prec", "sqrtprec", "sqrtcov", "cov"):
+        for rep in range(3 * S):
+            n = rng.choice([2, 3, 4, 5])
+            if form in ("cov", "prec"):
+                A = band(n, rng.choice([2.5, 3.0, 2.0]), rng.choice([-1.0, 1.0, 0.5]))
+            else:
+                A = band(n, rng.choice([1.0, 2.0]), rng.choice([-1.0, -0.5, 0.5]), 0.0)      # upper bidiagonal
+            fmt = rng.choice(["csr", "csc", "dia"])
+            mu = [dy(rng, -1, 1) for _ in range(n)]
+            x = [mu[j] + dy(rng, -1, 2) for j in range(n)]
+            lines.append(f"gausscov {form} sparse {n} {qm(A.tolist())}")
+            jobs.append((form, n, A, fmt, mu, x))
+    outs = ctx.lean.drive(lines)
+    st = np.random.get_state()
+    try:
+        for (form, n, A, fmt, mu, x), out in zip(jobs, outs):
+            desc = {"form": form, "dim": n, "format": fmt, "M": A.tolist(), "mean": mu, "x": x}
+            ctx.case("gauss-sparse-cov-cdf", desc)
+            key = f"Gaussian:{form}:sparse-full:covariance"
+            obj = {"csr": spa.csr_matrix, "csc": spa.csc_matrix, "dia": spa.dia_matrix}[fmt](A)
+            try:
+                with quiet():
+                    g = D.Gaussian(np.array(mu), **{form: obj})
+                    S_ = _dense(g.sqrtprec); Cself = np.linalg.inv(S_.T @ S_)
+            except Exception as e:  # noqa
+                ctx.note(f"sparse {form} ({fmt}) refused by the constructor: {type(e).__name__}"); continue
+            mism, fail = [], None
+            t = out.split()
+            if t[0] == "ok":
+                Cm = np.array([[float(Fraction(v)) for v in r.split(",")] for r in t[1].split(";")])
+                if not np.allclose(Cself, Cm, rtol=1e-8, atol=1e-10):
+                    mism.append("inverse of sqrtprec^T sqrtprec is not the model's covariance")
+            xa = np.array(x, dtype=float)
+            try:
+                with quiet():
+                    Ci = _dense(g.compute_cov())
+            except Exception as e:  # noqa
+                ctx.note(f"sparse {form} ({fmt}): compute_cov / cdf refused ({type(e).__name__})"); Ci = None
+            if Ci is not None:
+                if t[0] == "ok" and not np.allclose(Ci, Cm, rtol=1e-8, atol=1e-10):
+                    mism.append("compute_cov() is not the model's exact covariance")
+                if not np.allclose(Ci, Cself, rtol=1e-7, atol=1e-9):
+                    fail = (Cself.tolist(), Ci.tolist(), "compute_cov() is not the covariance of the density (inverse of sqrtprec^T sqrtprec)")
+                else:
+                    cs, cval = call(lambda: g.cdf(xa))
+                    with quiet():
+                        cref = float(sps.multivariate_normal(np.array(mu), Cself).cdf(xa))
+                    if cs == "raise":
+                        ctx.note(f"sparse {form} ({fmt}): cdf refused ({cval})")        # a refusal, not a wrong value
+                    elif abs(cval - cref) > 2e-3:
+                        fail = (cref, [cs, cval], "Gaussian.cdf of a Gaussian given by a sparse non-diagonal matrix is not the integral of its density (correlations dropped?)")
+                        mism.append(f"cdf {[cs, cval]} vs multivariate normal cdf with the model's covariance {cref}")
+            verdict(ctx, key, desc, not mism, out[:100], mism, fail, "sparse Gaussian covariance / cdf: model and implementation differ: " + "; ".join(mism))
+    finally:
+        np.random.set_state(st)
+
+
+def gmrf_threshold_section(ctx, D, thorough):
+    """GMRF on both sides of config.MAX_DIM_INV (the log-determinant switches from eigenvalues to the Cholesky factor of
+    the regularised matrix); float64 reference (pseudo-determinant of the structure matrix), tolerance 1e-6 relative"""
+    from cuqi import config
+    T = int(config.MAX_DIM_INV)
+    dims = [T + 1] + ([T] if thorough else [])
+    for n in dims:
+        for bc in ("zero", "periodic", "neumann"):
+            with quiet():
+                g = D.GMRF(np.zeros(n), 2.0, bc_type=bc)
+                P = _dense(g._prec_op.get_matrix())
+            x = np.sin(np.arange(n) / 50.0)
+            ev = np.linalg.eigvalsh(P); pos = ev > 1e-9 * ev.max(); r = int(pos.sum())
+            ref = 0.5 * (r * (math.log(2.0) - math.log(2 * math.pi)) + float(np.log(ev[pos]).sum())) - 0.5 * 2.0 * float(x @ (P @ x))
+            st, v = call(lambda: g.logpdf(x))
+            desc = {"family": "gmrf", "bc": bc, "dim": n, "MAX_DIM_INV": T}
+            ctx.case("gmrf-threshold", desc)
+            if st != "value" or not relclose(ref, v, 1e-6):
+                ctx.fail(f"GMRF:1D:order1:{bc}:dim>MAX_DIM_INV:logdet" if n > T else f"GMRF:1D:order1:{bc}:dim=MAX_DIM_INV:logpdf", desc, ref, [st, v],
+                         "GMRF.logpdf is not the documented (degenerate) Gaussian density: log-determinant of the structure matrix")
 
 
 def lognormal_history_section(ctx, D, rng, S):
@@ -1763,7 +2080,7 @@ def dtype_section(ctx, D, G, rng, S):
     forms = ["cov", "prec", "sqrtcov", "sqrtprec"]
     gjobs, glines = [], []
     for form in forms:
-        for n in (2, 3, 76, 80):
+        for n in ((2, 3, 76, 80) if S > 1 else (2, 3, 76)):
             sc = float(rng.choice([1, 2, 4]))
             vecv = [float(rng.randint(1, 4)) for _ in range(n)]
             tri = band(n, 3.0, 1.0)
@@ -1831,6 +2148,49 @@ def dtype_section(ctx, D, G, rng, S):
                 ctx.case("dtype-gauss", desc)
                 got = evaluate(lambda: D.Gaussian(mobj, **{form: vecv.copy()}), xobj, what=("logpdf", "pdf", "logd"))
                 compare(f"Gaussian:{form}:dtype:{label}", desc, b, got, 1e-12)
+    # ---- narrow dtypes: uint8 / int8 (arithmetic wraps), float16, bool (logical); numpy evaluates log / sqrt of 8-bit
+    # integers in float16, hence the stated relative tolerance 2e-3 for these variants
+    NTOL = 2e-3
+    for form in forms:
+        for n in (3, 76):
+            vals = np.array([float(rng.randint(1, 4)) for _ in range(n)])
+            mu = np.array([float(rng.randint(-2, 2)) for _ in range(n)]); x = mu + np.array([dy(rng, -2, 2) for _ in range(n)])
+            base = evaluate(lambda: D.Gaussian(mu.copy(), **{form: vals.copy()}), x, what=("logpdf", "pdf", "logd"))
+            for label, dt in (("uint8-array", np.uint8), ("int8-array", np.int8), ("float16-array", np.float16)):
+                desc = {"form": form, "dim": n, "variant": label, "values": vals.tolist() if n < 10 else "(long, entries 1..4)"}
+                ctx.case("dtype-narrow", desc)
+                got = evaluate(lambda: D.Gaussian(mu.copy(), **{form: vals.astype(dt)}), x, what=("logpdf", "logd"))
+                compare(f"Gaussian:{form}:dtype:vector:{label}" + (":dim>75" if n > 75 else ""), desc, base, got, NTOL)
+            ones = np.ones(n)
+            b1 = evaluate(lambda: D.Gaussian(mu.copy(), **{form: ones.copy()}), x, what=("logpdf", "logd"))
+            desc = {"form": form, "dim": n, "variant": "bool-array (all True)"}
+            ctx.case("dtype-narrow", desc)
+            gb = evaluate(lambda: D.Gaussian(mu.copy(), **{form: ones.astype(bool)}), x, what=("logpdf", "logd"))
+            if "ctor" in gb or gb["logpdf"][0] == "raise":
+                ctx.note(f"bool {form} vector dim {n}: refused ({gb})")                # a refusal, not a wrong value
+            else:
+                compare(f"Gaussian:{form}:dtype:vector:bool-array" + (":dim>75" if n > 75 else ""), desc, b1, gb, NTOL)
+        # squares beyond the range of the 8-bit type: [2, 16] (16**2 = 256 wraps to 0) — oracle only, a recorded finding
+        if form in ("sqrtcov", "sqrtprec"):
+            for label, dt in (("uint8", np.uint8), ("int8", np.int8)):
+                v = np.array([2.0, 16.0]); xx = np.array([0.5, 1.0])
+                with quiet():
+                    ref = fnum(D.Gaussian(np.zeros(2), **{form: v.copy()}).logpdf(xx))
+                st, got = call(lambda: D.Gaussian(np.zeros(2), **{form: v.astype(dt)}).logpdf(xx))
+                desc = {"form": form, "variant": label, "values": [2, 16]}
+                ctx.case("dtype-narrow", desc)
+                if st != "value" or not relclose(ref, got, NTOL):
+                    ctx.fail(f"Gaussian:{form}:dtype:narrow-int-wrap:{label}", desc, ref, [st, got],
+                             "8-bit integer standard deviations are squared in their own dtype (16**2 wraps to 0)")
+    for fam, mk in (("normal", lambda a: D.Normal(np.zeros(3), a)), ("gamma", lambda a: D.Gamma(a, a)), ("beta", lambda a: D.Beta(a, a)),
+                    ("cauchy", lambda a: D.Cauchy(np.zeros(3), a)), ("invgamma", lambda a: D.InverseGamma(a, np.zeros(3), a))):
+        vals = np.array([float(rng.randint(1, 4)) for _ in range(3)]); x = np.array([0.25, 0.5, 0.75])
+        base = evaluate(lambda: mk(vals.copy()), x)
+        for label, dt in (("uint8-array", np.uint8), ("int8-array", np.int8), ("float16-array", np.float16)):
+            desc = {"family": fam, "variant": label, "values": vals.tolist()}
+            ctx.case("dtype-narrow", desc)
+            compare(f"{fam}:dtype:{label}", desc, base, evaluate(lambda: mk(vals.astype(dt)), x), NTOL, skip=("cdf",) if fam == "cauchy" else ())
+
     # one covariance, four parameterisations, mixed dtypes: cov / sqrtcov integer, prec / sqrtprec float32 (powers of two: exact)
     for n in (3, 76):
         for rep in range(2 * S):
